@@ -310,7 +310,7 @@ class FakeContext:
     """stands in for a multiprocessing context (passed through the pool's public `context=` parameter)"""
     def __init__(self, sched):
         self.s = sched
-        self._qn = ["work", "results"]
+        self._qn = ["work", "results", "replace"]
         self._counts = {}
 
     def _qname(self):
